@@ -1,10 +1,20 @@
 import SV.Driver.Util
-/- svdriver_c09: line protocol for the C09 model (stub until the model is built). -/
+import SV.Model.Snap
+/-
+svdriver_c09: the protocol of svdriver_c08 plus
+  image <call idx> <marker> <occ> <async><norestore><allow> mf=<*|ids|-> uf=<…> order=<…>
+      -> restore=<ok|err> tr=… ls=… meta=… [ | cleanup=<ok|err> tr=… ls=… ]
+`call idx` counts the calls since the last `reset` (0-based); `(marker, occ)` is the occ-th firing
+of that crash-point marker inside that call.  The model restarts on `crash` of the state after
+that prefix of the call's atomic steps and then runs one Cleanup.
+-/
 namespace SV.Driver.C09
+open SV.Snap SV.Snap.Wire
 
-def step (s : Unit) : List String → Unit × String
-  | _ => (s, "bad-op")
+def step (d : DSt) : List String → DSt × String
+  | "image" :: args => (d, stepImage d args)
+  | ws => stepCommon d ws
 
 end SV.Driver.C09
 
-def main : IO Unit := SV.Driver.loop SV.Driver.C09.step ()
+def main : IO Unit := SV.Driver.loop SV.Driver.C09.step {}
